@@ -36,6 +36,9 @@ structure RibSt where
   /-- fold of the implementation's own acknowledgements (C01 monitor) -/
   spec : Map EKey Payload := []
   implEnts : Map EKey Payload := []
+  /-- `implEnts` was observed after the last operation (false while several operations that
+  overlapped in time are being reported one after the other) -/
+  entsFresh : Bool := false
   implPend : List Nat := []
   /-- ids the implementation answered FAILED (C01 monitor: they leave no trace) -/
   failedIds : List Nat := []
@@ -112,6 +115,7 @@ def failedTrace (st : RibSt) (oks fails : List Nat) : RibSt :=
   { st with failedIds := fails.eraseDups ++ st.failedIds }
 
 def handleAdd (st : RibSt) (op : Op) (oks fails : List Nat) (fatal : Bool) : RibSt :=
+  let st := { st with entsFresh := false }
   let st := failedTrace st oks fails
   let st := { st with ops := st.ops.insert op.id op }
   let st := st.covr ("add." ++ tryName (st.model.classify op))
@@ -144,7 +148,7 @@ def handleDel (st : RibSt) (op : Op) (oks fails : List Nat) (fatal : Bool) : Rib
   -- C03 monitor on the verdict, judged on the implementation's own contents before the call: a
   -- DELETE of an installed group or next-hop that an installed entry refers to is refused; in every
   -- other case, including a key that is not installed, a well-formed DELETE succeeds
-  let st := if st.blind then st else
+  let st := if st.blind || !st.entsFresh then st else
     match referrersOf st.implEnts op.ni op.key with
     | some n =>
       let installed := Map.has st.implEnts (op.ni, op.key)
@@ -156,6 +160,7 @@ def handleDel (st : RibSt) (op : Op) (oks fails : List Nat) (fatal : Bool) : Rib
       then st.monfail "c03" s!"DELETE {op.id} of {showKey op.key} in {op.ni} was refused although {if installed then "no installed entry refers to it" else "it is not installed"}"
       else st
     | none => st
+  let st := { st with entsFresh := false }
   let st := failedTrace st oks fails
   let st := { st with ops := st.ops.insert op.id op }
   let st := st.covr ("del." ++ dtryName (st.model.classifyDel op))
@@ -196,7 +201,7 @@ def countNhRefs (ents : Map EKey Payload) (ni : NI) (n : Nat) : Nat :=
   ents.countP (fun e => (match e.1.2 with | .nhg _ => true | _ => false) && e.1.1 == ni && e.2.nhs.contains n)
 
 def handleObsEnts (st : RibSt) (ents : Map EKey Payload) : RibSt :=
-  let st := { st with implEnts := ents }
+  let st := { st with implEnts := ents, entsFresh := true }
   -- C01 monitor: contents = fold of the implementation's own acknowledgements
   let st := if st.blind || mapEq st.spec ents then st
             else st.monfail "c01" s!"contents differ from the fold of acknowledged operations: contents={ents.length} fold={st.spec.length}"
